@@ -1696,6 +1696,14 @@ func (z *Decimal) SetBitsExp(mant []Word, exp int64) *Decimal {
 	z.mant = dec(mant).norm()
 	z.neg = false
 	if len(z.mant) > 0 {
+		if z.prec == 0 {
+			// like SetInt: a precision large enough to hold mant exactly
+			digits := int64(len(z.mant))*_DW - int64(nlz10(z.mant[len(z.mant)-1]))
+			if digits > MaxPrec {
+				digits = MaxPrec
+			}
+			z.prec = umax32(uint32(digits), DefaultDecimalPrec)
+		}
 		z.setExpAndRound(exp-dnorm(z.mant)-int64(len(mant)-len(z.mant))*_DW, 0)
 	} else {
 		z.acc = Exact
